@@ -19,6 +19,7 @@ def runner(sc):
     res.sc = sc
     res.results = []        # per op: ('ok', value) | ('exc', type, text)
     res.served = []         # what the serving application saw / got
+    res.times = []          # per op: [virtual time the call was made, virtual time it returned or raised]
     try:
         cl = S.Stack(sim, 'j1939-21', sc.get('max_cmdt', 8))
         sv = S.Stack(sim, 'j1939-21', sc.get('max_cmdt', 8))
@@ -70,6 +71,8 @@ def runner(sc):
                 opi['i'] = i
                 if op.get('absent'):
                     sv.on_bus = False
+                t_begin = sim.now
+                res.times.append([t_begin, None])
                 try:
                     if op['kind'] == 'read':
                         r = mc.read(S_ADDR, op.get('direct', 1), op['address'], op['count'], op.get('size', 1), op.get('signed', False),
@@ -80,6 +83,7 @@ def runner(sc):
                         res.results.append(('ok', r))
                 except Exception as ex:
                     res.results.append(('exc', type(ex).__name__, str(ex)))
+                res.times[-1][1] = sim.now
                 if op.get('absent'):
                     sv.on_bus = True
                 # idle gap between operations (the blocking calls park this thread; emulate a sleep with a timed wait)
